@@ -57,4 +57,10 @@ func init() {
 		ruleOrder(p, r, roots)
 		ruleNondet(p, r, roots)
 	})
+
+	register("EFFt", "temporary", nil, func(p *Prog, r *Report) {
+		ruleEffectRecv(p, r, p.readOnlyMethods(), "EFFECT.recv")
+		ruleEffectGlobal(p, r)
+		ruleOwnFresh(p, r, "mxj.Map.Copy")
+	})
 }
